@@ -333,7 +333,7 @@ def _worker(args):
                "violations": [], "known": {}, "foreign": {}, "hist": {}, "samples": [], "skipped": 0,
                "digests": [], "viol_keys": {}, "more_violations": 0}
         for idx in indices:
-            if deadline and time.time() > deadline:
+            if deadline and time.monotonic() > deadline:
                 agg["skipped"] += 1
                 continue
             if _TIMEOUTS_SEEN[0] is not None and _TIMEOUTS_SEEN[0].value >= 3:
@@ -457,7 +457,7 @@ def run_batch(prop, tier, seed, nruns, workers=None, budget_s=None, log=print):
     indices = list(range(nruns))
     chunks = [indices[i::nchunks] for i in range(nchunks)]
     chunks = [c for c in chunks if c]
-    deadline = time.time() + budget_s if budget_s else None
+    deadline = time.monotonic() + budget_s if budget_s else None
     tasks = [(prop, tier, seed, c, deadline) for c in chunks]
     total = {"runs": 0, "ops": 0, "faults": {}, "probes": {}, "evals": 0, "distinct": set(),
              "violations": [], "known": {}, "foreign": {}, "hist": {}, "samples": [], "skipped": 0,
